@@ -331,13 +331,43 @@ func verifSpecCL(lowered string) primitive.ConsistencyLevel {
 // C09 (routing), C13 (handshake), C01 (one answer per decoded frame): the client reader
 // ---------------------------------------------------------------------------------------------
 
+// ---------------------------------------------------------------------------------------------
+// C10: the virtual system.local / system.peers tables
+//   ringOK(p): what buildNodes leaves behind - a local node that occurs in the node list, every
+//   node present, every peer with an address.
+//   A row is built with one value per column of the metadata sent with it ("exactly the requested
+//   columns"): widths are wsum(...) of the statement's selectors over the TABLE's columns.
+// ---------------------------------------------------------------------------------------------
+
+//@ macro ringOK(p) = p.localNode != nil && forall(k, 0, len(p.nodes), p.nodes[k] != nil && (p.nodes[k] != p.localNode ==> p.nodes[k].addr != nil))
+//@ macro selWidth(stmt, n) = wsum(elemtags(stmt.Selectors), sliceoff(stmt.Selectors), n, len(stmt.Selectors))
+
+// The statements a client prepared for local handling stay well-formed (only handlePrepare files them).
+//@ owned-map map[[16]uint8]any
+//@ macro preparedOK(c) = mapAll(c.preparedSystemQuery, k, v, typeis(v, *parser.SelectStatement) ==> stmtOK(as(v, *parser.SelectStatement)))
+
+//@ func codecs.EncodeType
+//@   trusted
+//@   modifies nothing
+
+//@ func proxy.client.localIP [C10]
+//@   requires c != nil && c.proxy != nil && c.proxy.localNode != nil && c.conn != nil
+//@   modifies nothing
+
 //@ func proxy.client.filterSystemLocalValues [C10]
-//@   requires c != nil && stmt != nil
+//@   requires c != nil && stmtOK(stmt) && c.proxy != nil && c.proxy.cluster != nil && c.proxy.localNode != nil && c.conn != nil
+//@   ensures width: err == nil ==> len(row) == selWidth(stmt, len(columns))
 //@   modifies nothing
 
 //@ func proxy.client.filterSystemPeerValues [C10]
-//@   requires c != nil && stmt != nil
+//@   requires c != nil && stmtOK(stmt) && c.proxy != nil && c.proxy.cluster != nil && peer != nil && peer.addr != nil
+//@   ensures width: err == nil ==> len(row) == selWidth(stmt, len(columns))
 //@   modifies nothing
+
+//@ loop proxy.client.interceptSystemQuery #1
+//@   invariant data == nil || fresh(data)
+//@   invariant forall(k, 0, len(data), len(data[k]) == selWidth(s, len(peersColumns))) [C10]
+//@   invariant c.$sent == old(c.$sent) && c.$executed == old(c.$executed) && $reqStarted == old($reqStarted) && !$useTried && c.keyspace == old(c.keyspace) && c.compression == old(c.compression) && c.codec == old(c.codec)
 
 // interceptSystemQuery: every branch answers with exactly one frame on the request's stream and
 // forwards nothing.
@@ -350,6 +380,12 @@ func verifSpecCL(lowered string) primitive.ConsistencyLevel {
 //@ ghostvar $useCompression string
 //@ func proxy.client.interceptSystemQuery [C01, C07, C09, C10]
 //@   requires c != nil && hdr != nil && c.proxy != nil && c.conn != nil && inv(c.proxy) && c.proxy.cluster != nil && !$useTried
+//@   requires well-formed-statement: typeis(stmt, *parser.SelectStatement) ==> stmtOK(as(stmt, *parser.SelectStatement)) [C10]
+//@   requires ring: ringOK(c.proxy) [C10]
+//@   let rows = as($lastMsg, *message.RowsResult)
+//@   ensures rows-metadata: typeis($lastMsg, *message.RowsResult) ==> rows != nil && rows.Metadata != nil && (len(rows.Metadata.Columns) < 2147483648 ==> rows.Metadata.ColumnCount == len(rows.Metadata.Columns)) [C10]
+//@   ensures rows-aligned: typeis($lastMsg, *message.RowsResult) ==> forall(k, 0, len(rows.Data), len(rows.Data[k]) == len(rows.Metadata.Columns)) [C10]
+//@   ensures local-one-row: typeis($lastMsg, *message.RowsResult) && typeis(stmt, *parser.SelectStatement) && old(as(stmt, *parser.SelectStatement).Table) == "local" ==> len(rows.Data) == 1 [C10]
 //@   before proxy.Proxy.maybeCreateSession#1 set $useKs = arg2; $useVersion = arg1; $useCompression = arg3
 //@   after proxy.Proxy.maybeCreateSession#1 set $useTried = true; $useOK = (result1 == nil)
 //@   ensures use-tries-session: typeis(stmt, *parser.UseStatement) == $useTried
@@ -368,6 +404,7 @@ func verifSpecCL(lowered string) primitive.ConsistencyLevel {
 // handleQuery: a QUERY is answered locally iff the parser says it is handled (USE / system SELECT,
 // see parser.IsQueryHandled); otherwise it is forwarded, exactly once.
 //@ func proxy.client.handleQuery [C01, C09]
+//@   requires ring: ringOK(c.proxy) [C10]
 //@   requires c != nil && raw != nil && raw.Header != nil && body != nil && c.proxy != nil && c.conn != nil && c.codec != nil && inv(c.proxy) && c.proxy.cluster != nil && !$selReached && !$useTried
 //@   after parser.IsQueryHandled#1 set $qhHandled = result0
 //@   ensures local: $qhHandled ==> c.$executed == old(c.$executed) && c.$sent == old(c.$sent) + 1 && $reqStarted == old($reqStarted)
@@ -377,13 +414,15 @@ func verifSpecCL(lowered string) primitive.ConsistencyLevel {
 //@   modifies *, c.$sent, c.$executed, $reqStarted, $sends, $convertedBody, $lastReq, $lastMsg, $lastStream, $lastVersion, $lastClient, $qhHandled, $selReached, $selDot, $selErr, $selQual, $selTable, $useTried, $useOK, $useKs, $useVersion, $useCompression
 
 //@ func proxy.client.handlePrepare [C01, C09]
+//@   requires prepared-table: preparedOK(c) [C10]
+//@   ensures prepared-table: preparedOK(c) [C10]
 //@   requires c != nil && raw != nil && raw.Header != nil && body != nil && c.proxy != nil && c.conn != nil && c.codec != nil && inv(c.proxy) && c.preparedSystemQuery != nil && !$selReached
 //@   after parser.IsQueryHandled#1 set $qhHandled = result0
 //@   ensures local: $qhHandled ==> c.$executed == old(c.$executed) && c.$sent == old(c.$sent) + 1 && $reqStarted == old($reqStarted)
 //@   ensures forwarded: !$qhHandled ==> c.$executed == old(c.$executed) + 1
 //@   ensures one-answer: (c.$sent - old(c.$sent)) + ($reqStarted - old($reqStarted)) == 1 && c.$sent >= old(c.$sent) && $reqStarted >= old($reqStarted)
 //@   ensures on-stream: c.$sent == old(c.$sent) + 1 ==> $lastClient == c && $lastStream == old(raw.Header.StreamId)
-//@   modifies *, c.$sent, c.$executed, $reqStarted, $sends, $convertedBody, $lastReq, $lastMsg, $lastStream, $lastVersion, $lastClient, $qhHandled, $selReached, $selDot, $selErr, $selQual, $selTable
+//@   modifies *, c.preparedSystemQuery[*], c.$sent, c.$executed, $reqStarted, $sends, $convertedBody, $lastReq, $lastMsg, $lastStream, $lastVersion, $lastClient, $qhHandled, $selReached, $selDot, $selErr, $selQual, $selTable
 
 //@ ghostvar $exId [16]byte
 //@ ghostvar $exLocal bool
@@ -391,6 +430,8 @@ func verifSpecCL(lowered string) primitive.ConsistencyLevel {
 // handleExecute: an EXECUTE of an id that this client prepared as a handled statement is answered
 // locally; any other id is forwarded.
 //@ func proxy.client.handleExecute [C01, C09]
+//@   requires ring: ringOK(c.proxy) [C10]
+//@   requires prepared-table: preparedOK(c) [C10]
 //@   requires c != nil && raw != nil && raw.Header != nil && body != nil && c.proxy != nil && c.conn != nil && c.codec != nil && inv(c.proxy) && c.proxy.cluster != nil && !$useTried
 //@   after proxy.preparedIdKey#1 set $exId = result; $exLocal = mapHas(c.preparedSystemQuery, result)
 //@   ensures local: $exLocal ==> c.$executed == old(c.$executed) && c.$sent == old(c.$sent) + 1 && $reqStarted == old($reqStarted)
@@ -445,6 +486,9 @@ func verifSpecCL(lowered string) primitive.ConsistencyLevel {
 // one local frame or one backend request. A frame that cannot be decoded closes the connection
 // (error return) without any answer.
 //@ func proxy.client.Receive [C01, C13, C14]
+//@   requires ring: ringOK(c.proxy) [C10]
+//@   requires prepared-table: preparedOK(c) [C10]
+//@   ensures prepared-table: preparedOK(c) [C10]
 //@   requires c != nil && c.proxy != nil && c.conn != nil && c.codec != nil && inv(c.proxy) && c.proxy.cluster != nil && c.preparedSystemQuery != nil
 //@   requires !$rxDecoded && !$rxBodyTried && !$selReached && !$useTried
 //@   after frame.RawCodec.DecodeRawFrame#1 set $rxDecoded = (result1 == nil); $rxVersion = result0.Header.Version; $rxStream = result0.Header.StreamId
@@ -458,7 +502,7 @@ func verifSpecCL(lowered string) primitive.ConsistencyLevel {
 //@   ensures register-reply: $rxBodyTried && $rxBodyOK && typeis($rxMsg, *message.Register) ==> typeis($lastMsg, *message.Ready)
 //@   ensures register-membership: $rxBodyTried && $rxBodyOK && typeis($rxMsg, *message.Register) && as($rxMsg, *message.Register) != nil ==> c.$registered == (old(c.$registered) || exists(k, 0, len(as($rxMsg, *message.Register).EventTypes), as($rxMsg, *message.Register).EventTypes[k] == primitive.EventTypeSchemaChange))
 //@   ensures only-register-registers: !($rxBodyTried && $rxBodyOK && typeis($rxMsg, *message.Register)) ==> c.$registered == old(c.$registered)
-//@   modifies *, c.$registered, c.$sent, c.$executed, $reqStarted, $sends, $convertedBody, $lastReq, $lastMsg, $lastStream, $lastVersion, $lastClient, $qhHandled, $selReached, $selDot, $selErr, $selQual, $selTable, $exId, $exLocal, $useTried, $useOK, $useKs, $useVersion, $useCompression, $rxDecoded, $rxVersion, $rxStream, $rxBodyTried, $rxBodyOK, $rxMsg
+//@   modifies *, c.preparedSystemQuery[*], c.$registered, c.$sent, c.$executed, $reqStarted, $sends, $convertedBody, $lastReq, $lastMsg, $lastStream, $lastVersion, $lastClient, $qhHandled, $selReached, $selDot, $selErr, $selQual, $selTable, $exId, $exLocal, $useTried, $useOK, $useKs, $useVersion, $useCompression, $rxDecoded, $rxVersion, $rxStream, $rxBodyTried, $rxBodyOK, $rxMsg
 
 // ---------------------------------------------------------------------------------------------
 // C01 / C04 / C05: the request object as a monitor
